@@ -206,12 +206,10 @@ func c18Snapshot(rep *kit.Report, unit string, run int, seed uint64, variant, tr
 		// walking the PUBLISH_ACTIVITY entries that piled up behind it
 		time.Sleep(time.Duration(kit.EnvInt("C18_STOP_DELAY_MS", 0)) * time.Millisecond)
 		c18Stage("stopping")
-		if err := e.c.StopNode("a"); err != nil {
-			e.logf("stop a: %v", err)
-		}
+		stopped := e.stopNode("a")
 		c18Stage("starting")
 		e.step("stopped-during-walk")
-		if !e.startNode("a") || e.leader() == nil {
+		if !stopped || !e.startNode("a") || e.leader() == nil {
 			e.account()
 			return
 		}
@@ -354,8 +352,8 @@ func c18Cluster(rep *kit.Report, run int, seed uint64) {
 			stopped = e.nodeOf(l)
 			e.step("stopLeader(%s,lastPublished=%d)", stopped, l.activity.LastPublishedRaftIndex())
 			e.absorbAll()
-			if err := c.StopNode(stopped); err != nil {
-				e.logf("stop %s: %v", stopped, err)
+			if !e.stopNode(stopped) {
+				break
 			}
 			e.mu.Lock()
 			e.failovers++
@@ -484,6 +482,8 @@ func TestVerifC18Child(t *testing.T) {
 		c18Reserved(rep, spec.Run, spec.Seed, spec.Variant)
 	case "defaults":
 		c18Defaults(rep, spec.Run, spec.Seed, spec.Variant)
+	case "refail":
+		c18Refail(rep, spec.Run, spec.Seed, spec.Variant, spec.Bulk, spec.Trailing)
 	default:
 		t.Fatalf("unknown unit %q", spec.Unit)
 	}
@@ -598,7 +598,7 @@ func c18RunChildren(rep *kit.Report, unit string, specs []c18ChildSpec, workers 
 			case string(stage) == "stopping":
 				rep.Violation("C18:"+unit+":crash-while-stopping:"+fn,
 					fmt.Sprintf("the server process died (%s, first server frame %s) inside Server.Stop()", m, fn), replay)
-			case string(stage) == "starting" && spec.Variant >= 1 && (spec.Trailing > 0 || spec.Bulk > 0):
+			case string(stage) == "starting" && spec.Variant >= 1 && (spec.Trailing > 0 || spec.Bulk > 0) && spec.Unit != "refail":
 				rep.Violation("C18:"+unit+":controller-crash-after-snapshot-restart:"+fn,
 					fmt.Sprintf("the server process died (%s, first server frame %s) when it became controller again after a restart from a Raft snapshot that had truncated the Raft log (%s): the last-published activity index is not part of the snapshot, the dispatcher restarts from Raft index 1 and panics on the missing log entry; no later operation is ever listed", m, fn, c18TrailingText(spec)), replay)
 			default:
